@@ -221,6 +221,7 @@ void FsDropInService::processDropInRemove(const std::string& file) {
   }
 
   OLOG << "Removing drop in config=" << file;
+  loaded_files_.erase(file);
   scheduleDropInRemove(file);
 }
 
@@ -240,7 +241,10 @@ void FsDropInService::processDropInAdd(const std::string& file) {
 
   // The file has changed. If its new content cannot be used, what it
   // contributed before must not stay active as if nothing had happened.
-  auto dropStaleVersion = [&]() { scheduleDropInRemove(file); };
+  auto dropStaleVersion = [&]() {
+    loaded_files_.erase(file);
+    scheduleDropInRemove(file);
+  };
 
   std::stringstream buf;
   buf << dropin_file.rdbuf();
@@ -265,6 +269,8 @@ void FsDropInService::processDropInAdd(const std::string& file) {
     OLOG << "Could not compile drop in config";
     OLOG << "Failed to inject drop in config into engine";
     dropStaleVersion();
+  } else {
+    loaded_files_.insert(file);
   }
 }
 
@@ -298,6 +304,13 @@ int FsDropInService::processDropInWatcher(int fd) {
       } else if (event->mask & (IN_DELETE_SELF | IN_MOVE_SELF)) {
         // Remove stale watch descriptor for drop in if watched file or
         // directory itself is moved or deleted
+        // Whatever was loaded from that directory is not in the drop in
+        // directory any more (a directory that is moved away takes its files
+        // along without a delete event for each)
+        for (const auto& file : loaded_files_) {
+          scheduleDropInRemove(file);
+        }
+        loaded_files_.clear();
         if (deregisterDropInWatcherFromEventLoop()) {
           return 1;
         }
